@@ -242,6 +242,20 @@ class GoCompileError(Exception):
     pass
 
 
+def go_read_number(t):
+    """Go's reading of one decimal numeric token (spec: Integer literals / Floating-point literals): a token with a `.` or
+    an exponent is a floating-point constant ('q', Fraction), digits alone are an integer constant ('i', int; octal after a
+    leading 0).  None: not a token of these forms (hexadecimal forms and `_` separators are not read)."""
+    if re.fullmatch(r"\d+", t):
+        v = go_read_int(t)
+        return None if v is None else ("i", v)
+    m = re.fullmatch(r"(\d+\.\d*|\.\d+|\d+)(?:[eE]([+-]?\d+))?", t)
+    if not m:
+        return None
+    ip, _, fp = m.group(1).partition(".")
+    return ("q", Fraction(int((ip + fp) or "0"), 10 ** len(fp)) * Fraction(10) ** int(m.group(2) or 0))
+
+
 def go_const_bin(sym, a, b):
     """one operator on two untyped constants, exactly: ('i', int) | ('q', Fraction) | ('b', bool)"""
     if a[0] == "b" or b[0] == "b":
@@ -278,12 +292,18 @@ def go_convert(ty, v):
     return ("f", ty, bits)
 
 
+# diagnosis only: evaluate a file as if every dot-less numeric token were of floating-point kind (what it would be with
+# the `.0` suffix), to tell whether the KIND of a token is what makes Go's result differ from the source meaning
+_READ_INT_TOKENS_AS_FLOAT = [False]
+
+
 def go_eval_expr(e, env, fns):
     k = e[0]
     if k == "num":
-        t = e[1]
-        if not re.fullmatch(r"\d+(\.\d+)?", t): raise GoCompileError("bad-literal")
-        return ("c", ("q", Fraction(t)) if "." in t else ("i", int(t)))
+        c = go_read_number(e[1])
+        if c is None: raise GoCompileError("bad-literal")
+        if c[0] == "i" and _READ_INT_TOKENS_AS_FLOAT[0]: c = ("q", Fraction(c[1]))
+        return ("c", c)
     if k == "var":
         if e[1] in ("true", "false"): return ("b", e[1] == "true")
         return env[e[1]][1]
@@ -391,7 +411,7 @@ def go_file_eval(gofile, ty):
 
 def text_class(text, ty):
     """how well a printed literal text pins down the float it stands for"""
-    q = Fraction(text)
+    q = Fraction(go_read_number(text)[1])
     if fval(fbits(q, ty), ty) == q:
         return "exact"
     if ty == "float64":
@@ -458,7 +478,7 @@ def run(ctx):
     to_model.append("fprint\t(fprint)")
     model = ctx.model("c10", to_model) if to_model and os.path.exists(vlib.MODEL) else {}
     rnd = random.Random(ctx.seed)
-    n = {k: 0 for k in ("LIT", "NEG", "PAT", "OP", "FLT", "FC", "PARSE", "EVAL", "FMT", "TOSTR")}
+    n = {k: 0 for k in ("LIT", "NEG", "PAT", "OP", "FLT", "FC", "GOLIT", "PARSE", "EVAL", "FMT", "TOSTR")}
     eq = dict(n)
     stats = {"lit_accept": 0, "lit_reject_out_of_range": 0, "lit_reject_annotation": 0, "op_value_checks": 0, "op_const_exprs": 0,
              "flt_accept": 0, "flt_reject": 0, "flt_double_rounding_discriminating": 0, "flt_double_rounded": 0, "pat_accept": 0, "pat_reject": 0,
@@ -784,12 +804,46 @@ def run(ctx):
                         sig = {"oracle": "float-constant", "kind": "go-constant-expression-differs-from-source", "operand_text": "negative-zero"}
                         cls = "the constant -0.0 is +0 in Go"
                     else:
-                        order = ["exact", "f64-round-trip", "f32-round-trip-only"]
-                        cls = max([text_class(t_, ty) for t_ in texts if "." in t_] or ["exact"], key=order.index)
+                        order = ["exact", "f64-round-trip", "f32-round-trip-only", "integer-kind"]
+                        kinds = [(go_read_number(t_) or ("?",))[0] for t_ in texts]
+                        cls = max([text_class(t_, ty) for t_, k_ in zip(texts, kinds) if k_ == "q"] or ["exact"], key=order.index)
+                        if "i" in kinds:
+                            # a float operand printed without `.`/exponent is an INTEGER constant: `7 / 2` is integer division.
+                            # Named as the cause only when reading those tokens as floating-point changes Go's result.
+                            _READ_INT_TOKENS_AS_FLOAT[0] = True
+                            try:
+                                got_fk = go_file_eval(gofile, ty)[0]
+                            except Exception:
+                                got_fk = None
+                            finally:
+                                _READ_INT_TOKENS_AS_FLOAT[0] = False
+                            if got_fk != got:
+                                cls = "integer-kind"
                         sig = {"oracle": "float-constant", "kind": "go-constant-expression-differs-from-source", "type": ty, "operand_text": cls}
                     ctx.report(sig,
                                f"`{stmt}` at {ty} means {want_s} (each literal rounded to {ty}, IEEE operation) but the printed Go evaluates the "
                                f"literal TEXTS {texts[:4]} exactly and rounds once: {got_s} (operand texts: {cls})", pl)
+
+        # ---------------------------------------------------------------- GOLIT: the reading of one numeric token of the Go text
+        elif kind == "GOLIT":
+            text = args[0]
+            c = go_read_number(text)
+            if c is None:
+                mine = "bad"
+            elif c[0] == "i" and len(text) > 1 and text[0] == "0":
+                mine = "octal-int"
+            else:
+                def at(ty):
+                    b = fbits(Fraction(c[1]), ty)
+                    return "overflow" if b == finf(ty) else f"{b:x}"
+                mine = f"{'int' if c[0] == 'i' else 'float'} f32={at('float32')} f64={at('float64')}"
+            if re.fullmatch(r"0\d+", text) and go_read_int(text) is None:
+                mine = "octal-int"      # `08`: not a Go token at all; Rust is not asked (the harness answers octal-int by shape)
+            if pred == impl == mine:
+                eq[kind] += 1
+            else:
+                tie_fail(kind, r, pred + f" python={mine}")
+            stats["golit_" + mine.split()[0]] = stats.get("golit_" + mine.split()[0], 0) + 1
 
         # ---------------------------------------------------------------- PARSE / FMT / EVAL: model vs Rust std, plus python's own
         elif kind == "PARSE":
@@ -911,10 +965,16 @@ def run(ctx):
                               "literal pairs), bool and float operators; each integer OP case is evaluated on all 256×256 operand pairs (8-bit) or "
                               "boundary+random pairs against the source meaning; FC: float operators whose operands are literals (lit op lit grid over one-decimal and dyadic values + seeded random "
                               "decimals, exact ties, literal comparisons, three literals in both associations, mixed with variables, unary minus, nested, call "
-                              "arguments, conditions, constant zero divisor / overflow / negative zero; float32 and float64): source meaning from exact "
-                              "Fractions vs Sem on the real Core vs Go's constant rules on the real printed text; FLT: decimals, f32 rounding midpoints ± 10^-k, range ends, subnormals",
+                              "arguments, conditions, constant zero divisor / overflow / negative zero; the KIND of the printed constant: whole-number operands "
+                              "(whole op whole grid over every operator + seeded random 1..7-digit pairs + magnitudes around 2^24 / 2^32 / 2^53 / 2^64, negated, beside a "
+                              "non-whole literal, beside a variable, nested, call argument, comparison, condition); float32 and float64): source meaning from exact "
+                              "Fractions vs Sem on the real Core vs Go's constant rules on the real printed text; FLT: decimals, f32 rounding midpoints ± 10^-k, range ends, subnormals; "
+                              "GOLIT (model validation): the reading of one numeric token of Go text — every decimal form of Go's floating-point literal grammar (either side of "
+                              "the `.` empty, exponent with/without sign, e/E), malformed tokens, and `{}` / `{:?}` / `{:e}` / `{:E}` of seeded random finite f64 / f32 values — by "
+                              "Model/GoConst.litValL + roundQ, by python and by Rust's str::parse::<f32/f64> (three-way)",
     }
     ctx.assumptions += [
+        "Go numeric tokens: a decimal token with a `.` or an exponent is a floating-point constant, digits alone an integer constant (octal after a leading 0), and an operator on two integer constants is integer arithmetic (`7 / 2` is 3) — Go specification, Integer literals / Floating-point literals / Constant expressions; Model/GoConst.litValL and go_read_number in c10.py; hexadecimal forms and `_` separators are not read",
         "Go constant expressions: numeric literals are untyped arbitrary-precision constants, evaluated exactly, converted once at the typed use; a constant zero divisor and a constant that overflows the type are compile errors; there is no negative-zero constant (Go specification, Constants / Constant expressions) — Model/GoConst.lean and go_file_eval in c10.py",
         "IEEE-754 + - * / on float32/float64 are the exact result correctly rounded (ieeeBin / ieee); signed-zero results and NaN are not modelled",
         "Go's semantics of + - * / < <= > >= == != - ! on sized integers is what the Go specification says (goBinInt in Lean, go_bin in the oracle); no Go toolchain exists to observe it",
